@@ -68,71 +68,84 @@ def parseClassBody : Nat → List Char → List (Char × Char) → Option (List 
     else parseClassBody fuel rest (acc ++ [(a, b)])
   | fuel + 1, a :: rest, acc => parseClassBody fuel rest (acc ++ [(a, a)])
 
+/-! The four mutually recursive parser functions take an explicit fuel argument (structural recursion, so that the
+    kernel can evaluate `parse` on a concrete pattern).  Every call decrements the fuel by one; a call chain
+    `parseAlt → parseSeq → parseQuant → parseAtom → parseAlt` consumes at least one character of the pattern, and so do
+    `parseSeq → parseSeq` and `parseAlt → parseAlt`, hence a call on a rest of length `n` needs at most `4 * n + 2`
+    units and `parse` (which starts with `4 * length + 8`) never runs out. -/
 mutual
 /-- alternation level -/
-partial def parseAlt (st : PState) : Option (Re × PState) := do
-  let (a, st1) ← parseSeq st
-  match st1.rest with
-  | '|' :: rest =>
-    let (b, st2) ← parseAlt { st1 with rest := rest }
-    pure (Re.alt a b, st2)
-  | _ => pure (a, st1)
-
-partial def parseSeq (st : PState) : Option (Re × PState) := do
-  match st.rest with
-  | [] => pure (Re.eps, st)
-  | '|' :: _ => pure (Re.eps, st)
-  | ')' :: _ => pure (Re.eps, st)
-  | _ =>
-    let (a, st1) ← parseQuant st
-    let (b, st2) ← parseSeq st1
-    pure (match b with | Re.eps => a | _ => Re.seq a b, st2)
-
-partial def parseQuant (st : PState) : Option (Re × PState) := do
-  let (a, st1) ← parseAtom st
-  match st1.rest with
-  | '*' :: '?' :: rest => pure (Re.star a false, { st1 with rest := rest })
-  | '*' :: rest => pure (Re.star a true, { st1 with rest := rest })
-  | '+' :: '?' :: rest => pure (Re.plus a false, { st1 with rest := rest })
-  | '+' :: rest => pure (Re.plus a true, { st1 with rest := rest })
-  | '?' :: '?' :: rest => pure (Re.opt a false, { st1 with rest := rest })
-  | '?' :: rest => pure (Re.opt a true, { st1 with rest := rest })
-  | _ => pure (a, st1)
-
-partial def parseAtom (st : PState) : Option (Re × PState) := do
-  match st.rest with
-  | [] => none
-  | '(' :: '?' :: ':' :: rest =>
-    let (r, st1) ← parseAlt { st with rest := rest }
+def parseAlt : Nat → PState → Option (Re × PState)
+  | 0, _ => none
+  | fuel + 1, st => do
+    let (a, st1) ← parseSeq fuel st
     match st1.rest with
-    | ')' :: rest' => pure (r, { st1 with rest := rest' })
-    | _ => none
-  | '(' :: rest =>
-    let idx := st.ngroups + 1
-    let (r, st1) ← parseAlt { rest := rest, ngroups := idx }
+    | '|' :: rest =>
+      let (b, st2) ← parseAlt fuel { st1 with rest := rest }
+      pure (Re.alt a b, st2)
+    | _ => pure (a, st1)
+
+def parseSeq : Nat → PState → Option (Re × PState)
+  | 0, _ => none
+  | fuel + 1, st => do
+    match st.rest with
+    | [] => pure (Re.eps, st)
+    | '|' :: _ => pure (Re.eps, st)
+    | ')' :: _ => pure (Re.eps, st)
+    | _ =>
+      let (a, st1) ← parseQuant fuel st
+      let (b, st2) ← parseSeq fuel st1
+      pure (match b with | Re.eps => a | _ => Re.seq a b, st2)
+
+def parseQuant : Nat → PState → Option (Re × PState)
+  | 0, _ => none
+  | fuel + 1, st => do
+    let (a, st1) ← parseAtom fuel st
     match st1.rest with
-    | ')' :: rest' => pure (Re.group idx r, { st1 with rest := rest' })
-    | _ => none
-  | '[' :: '^' :: rest =>
-    let (rs, rest') ← parseClassBody (rest.length + 1) rest []
-    pure (Re.set { neg := true, ranges := rs }, { st with rest := rest' })
-  | '[' :: rest =>
-    let (rs, rest') ← parseClassBody (rest.length + 1) rest []
-    pure (Re.set { ranges := rs }, { st with rest := rest' })
-  | '.' :: rest => pure (Re.any, { st with rest := rest })
-  | '\\' :: 'b' :: rest => pure (Re.wordb, { st with rest := rest })
-  | '\\' :: c :: rest =>
-    match escapeSet c with
-    | some s => pure (Re.set s, { st with rest := rest })
-    | none => pure (Re.set { ranges := [(c, c)] }, { st with rest := rest })
-  | c :: rest =>
-    if c == '*' || c == '+' || c == '?' || c == ')' || c == '|' then none
-    else pure (Re.set { ranges := [(c, c)] }, { st with rest := rest })
+    | '*' :: '?' :: rest => pure (Re.star a false, { st1 with rest := rest })
+    | '*' :: rest => pure (Re.star a true, { st1 with rest := rest })
+    | '+' :: '?' :: rest => pure (Re.plus a false, { st1 with rest := rest })
+    | '+' :: rest => pure (Re.plus a true, { st1 with rest := rest })
+    | '?' :: '?' :: rest => pure (Re.opt a false, { st1 with rest := rest })
+    | '?' :: rest => pure (Re.opt a true, { st1 with rest := rest })
+    | _ => pure (a, st1)
+
+def parseAtom : Nat → PState → Option (Re × PState)
+  | 0, _ => none
+  | fuel + 1, st => do
+    match st.rest with
+    | [] => none
+    | '(' :: '?' :: ':' :: rest =>
+      let (r, st1) ← parseAlt fuel { st with rest := rest }
+      match st1.rest with
+      | ')' :: rest' => pure (r, { st1 with rest := rest' })
+      | _ => none
+    | '(' :: rest =>
+      let idx := st.ngroups + 1
+      let (r, st1) ← parseAlt fuel { rest := rest, ngroups := idx }
+      match st1.rest with
+      | ')' :: rest' => pure (Re.group idx r, { st1 with rest := rest' })
+      | _ => none
+    | '[' :: '^' :: rest =>
+      let (rs, rest') ← parseClassBody (rest.length + 1) rest []
+      pure (Re.set { neg := true, ranges := rs }, { st with rest := rest' })
+    | '[' :: rest =>
+      let (rs, rest') ← parseClassBody (rest.length + 1) rest []
+      pure (Re.set { ranges := rs }, { st with rest := rest' })
+    | '.' :: rest => pure (Re.any, { st with rest := rest })
+    | '\\' :: 'b' :: rest => pure (Re.wordb, { st with rest := rest })
+    | '\\' :: c :: rest =>
+      match escapeSet c with
+      | some s => pure (Re.set s, { st with rest := rest })
+      | none => pure (Re.set { ranges := [(c, c)] }, { st with rest := rest })
+    | c :: rest =>
+      if c == '*' || c == '+' || c == '?' || c == ')' || c == '|' then none
+      else pure (Re.set { ranges := [(c, c)] }, { st with rest := rest })
 end
 
 /-- parse a pattern: the regex and its number of capturing groups -/
 def parse (p : String) : Option (Re × Nat) :=
-  match parseAlt { rest := p.toList, ngroups := 0 } with
+  match parseAlt (4 * p.toList.length + 8) { rest := p.toList, ngroups := 0 } with
   | some (r, st) => if st.rest.isEmpty then some (r, st.ngroups) else none
   | none => none
 
